@@ -2,7 +2,7 @@
    Model: coq/model/Mmr.v; specification: coq/spec/MmrSpec.v (path ls i = sibling digests from leaf i up to,
    excluding, its peak; mp_verify_spec = what verification has to decide). *)
 From Coq Require Import ZArith List Bool.
-From TF Require Import Word MmrIdxLocal Mmr MmrSpec MmrTerm MmrProofs.
+From TF Require Import Word MmrIdxLocal Mmr MmrSpec MmrTerm MmrProofs MmrSmall.
 Import ListNotations.
 Open Scope Z_scope.
 
@@ -78,3 +78,29 @@ Definition C05_batch_mutate_full : Prop :=
         forall p, In p modified <->
                   exists i, nth_error idxs (Z.to_nat p) = Some i /\ 0 <= p /\
                             path D H dflt (apply_muts D ls ms) i <> path D H dflt ls i.
+
+(* PARTIAL stand-ins (bounded exhaustive, free hash with pairwise distinct leafs, by vm_compute; the checked
+   predicates are in proofs/MmrSmall.v):
+   append_case n    - n leafs, all tracked: update_from_append on each proof and batch_update_from_append on
+                      all give exactly the paths in the list with one more leaf; flags / `modified` = exactly
+                      the changed ones;
+   mutation_case n  - every mutated leaf j (fresh value, or the old value) x every tracked leaf:
+                      update_from_leaf_mutation, batch_update_from_leaf_mutation,
+                      batch_update_from_batch_leaf_mutation [one mutation] give exactly the new paths,
+                      `modified` exact for the batch routines and never missing a change for the single one;
+                      mutate_leaf gives the new peaks;
+   batch_case n     - every ordered list of 1..3 distinct mutated leaves, all leaves tracked:
+                      batch_mutate_leaf_and_update_mps gives new peaks, new paths and the exact `modified`,
+                      batch_update_from_batch_leaf_mutation likewise, verify_batch_update accepts the right
+                      peaks and rejects wrong ones. *)
+Theorem C05_update_from_append_small_partial : forall n : nat, (n <= 48)%nat -> append_case n = true.
+Proof. exact append_case_small. Qed.
+Print Assumptions C05_update_from_append_small_partial.
+
+Theorem C05_update_from_leaf_mutation_small_partial : forall n : nat, (n <= 20)%nat -> mutation_case n = true.
+Proof. exact mutation_case_small. Qed.
+Print Assumptions C05_update_from_leaf_mutation_small_partial.
+
+Theorem C05_batch_mutation_small_partial : forall n : nat, (n <= 10)%nat -> batch_case n = true.
+Proof. exact batch_case_small. Qed.
+Print Assumptions C05_batch_mutation_small_partial.
